@@ -358,17 +358,31 @@ impl std::error::Error for SimIoError {}
 
 type ReadResult = Result<Vec<u8>, Box<dyn std::error::Error + Send + Sync + 'static>>;
 
-fn errbox(kind: &ErrKind, _seq: u32) -> Box<dyn std::error::Error + Send + Sync + 'static> {
-    let k = match kind {
-        ErrKind::Enoent => 2,
-        ErrKind::Eacces => 13,
-        ErrKind::Eio => 5,
-        ErrKind::Eisdir => 21,
-        ErrKind::Eintr => 4,
-    };
-    // what `std::fs::read` would hand back: a real io::Error carrying the OS error code
-    // (no heap allocation: the code is stored inline)
-    Box::new(std::io::Error::from_raw_os_error(k))
+fn errbox(kind: &ErrKind, seq: u32) -> Box<dyn std::error::Error + Send + Sync + 'static> {
+    use std::io::ErrorKind as K;
+    // what `std::fs::read` would hand back: a real io::Error carrying the OS error code, or one of
+    // the code-less kinds std produces itself (no heap allocation: both are stored inline);
+    // or, for a reader that is not std's, some other error type altogether
+    let os = |k: i32| -> Box<dyn std::error::Error + Send + Sync + 'static> { Box::new(std::io::Error::from_raw_os_error(k)) };
+    let simple = |k: K| -> Box<dyn std::error::Error + Send + Sync + 'static> { Box::new(std::io::Error::from(k)) };
+    match kind {
+        ErrKind::Enoent => os(2),
+        ErrKind::Eacces => os(13),
+        ErrKind::Eio => os(5),
+        ErrKind::Eisdir => os(21),
+        ErrKind::Eintr => os(4),
+        ErrKind::Einval => os(22),
+        ErrKind::Enotdir => os(20),
+        ErrKind::Eloop => os(40),
+        ErrKind::Enametoolong => os(36),
+        ErrKind::Enomem => os(12),
+        ErrKind::Eagain => os(11),
+        ErrKind::KInvalidInput => simple(K::InvalidInput),
+        ErrKind::KInvalidData => simple(K::InvalidData),
+        ErrKind::KOther => simple(K::Other),
+        ErrKind::KUnexpectedEof => simple(K::UnexpectedEof),
+        ErrKind::Custom => Box::new(SimIoError { kind: 5, seq }),
+    }
 }
 
 /// A reader that never finds anything (the "empty world").
